@@ -100,6 +100,10 @@ def render_sites(ck, rule):
     ck.saw(h)
 
 
+def _ident(d):
+    return d
+
+
 def hex_image(ck, rule):
     """C11.R2: utils.hex_repr renders ceil(n_word/4) zero-padded upper-case digits of int(x, 2)."""
     prog = ck.prog
@@ -125,18 +129,23 @@ def hex_image(ck, rule):
             continue
         c = fmtc[0]
         spec_ok = False
-        for lit, fld, spec, conv in string.Formatter().parse(const_str(c.func.value)):
-            if fld == "0" and spec is not None:
-                spec_ok = spec.startswith("0") and spec.endswith("X") and "{1}" in spec
-                if spec.endswith("x"):
-                    ck.bad(rule, f, "hex digits are upper case", "format spec %r" % spec, pf.ret_stmt, "lower-case digits")
-        ck.check(spec_ok, rule, f, "format spec zero-fills to the given width in upper-case hex ('0{1}X')", "template %r" % const_str(c.func.value), pf.ret_stmt)
-        # arg0 = int(x, 2)
-        a0 = c.args[0] if c.args else None
+        from ..common import format_fields
+        a0 = wexpr = None
+        for lit, val, parts, conv in format_fields(c):
+            if parts:
+                a0 = val
+                spec_ok = len(parts) == 3 and parts[0] == "0" and parts[2] == "X" and isinstance(parts[1], ast.AST)
+                wexpr = parts[1] if spec_ok else None
+                if isinstance(parts[-1], str) and parts[-1].endswith("x"):
+                    ck.bad(rule, f, "hex digits are upper case", "format spec %r" % parts, pf.ret_stmt, "lower-case digits")
+        ck.check(spec_ok, rule, f, "format spec zero-fills to the given width in upper-case hex ('0<width>X')", "template %r" % const_str(c.func.value), pf.ret_stmt)
+        # printed value = int(x, 2)
         ok0 = isinstance(a0, ast.Call) and dotted(a0.func) == "int" and len(a0.args) == 2 and isinstance(a0.args[1], ast.Constant) and a0.args[1].value == 2
         ck.check(ok0, rule, f, "with base=2 the digits come from int(x, 2) of the binary image", "value %s" % (src(a0)[:40] if a0 is not None else None), pf.ret_stmt)
         try:
-            w = mkterm(c.args[1], rename=lambda d: d)
+            if wexpr is None:
+                raise IndexError("no width field")
+            w = mkterm(wexpr, rename=_ident)
             o = fapp("cdiv", Term.var("n_word"), Term.const(4))
             alt = None
             ck.saw(terms=1)
@@ -508,12 +517,21 @@ def parse_dispatch(ck, rule):
     table = {"utils.strbin2int": ("x", "signed", "n_word"), "utils.strbin2float": ("x", "signed", "n_word", "n_frac"), "utils.strbin2complex": None,
              "utils.strhex2int": ("x", "signed", "n_word"), "utils.strhex2float": ("x", "signed", "n_word", "n_frac")}
     seen = set()
-    for c in calls_in(f.node):
-        r = prog.resolve_call(f, c)
-        if r in table and table[r] is not None:
-            seen.add(r)
-            got = tuple(dotted(a) for a in c.args[:len(table[r])])
-            ck.check(got == table[r], rule, f, "str2num forwards %s to %s" % (", ".join(table[r]), r.split(".")[1]), "passes %s" % (got,), c, "the string is decoded with another width/signedness than the object's")
+    done = set()
+    for pf in fpaths(prog, f):
+        for ce in pf.calls:
+            c = ce.call                       # substituted: a parser chosen by a conditional expression / table is the chosen function here
+            if ce.depth:
+                continue
+            r = prog.resolve_call(f, c)
+            if r in table and table[r] is not None:
+                seen.add(r)
+                # arguments as written (the string itself may have been rewritten before, e.g. x.replace('h', 'x'))
+                got = tuple(dotted(a) for a in ce.raw.args[:len(table[r])])
+                if (r, got) in done:
+                    continue
+                done.add((r, got))
+                ck.check(got == table[r], rule, f, "str2num forwards %s to %s" % (", ".join(table[r]), r.split(".")[1]), "passes %s" % (got,), ce.raw, "the string is decoded with another width/signedness than the object's")
     ck.check(len(seen) == 4, rule, f, "str2num dispatches to the four bin/hex parsers", "reaches only %s" % sorted(seen), f.node)
     # selectors
     sel = {"b": False, "x": False}
